@@ -154,10 +154,30 @@ theorem C17_setItem_lookup (items : List Item) (name value : List Nat) (hn : nam
   · exact ⟨⟨name, value⟩, by simp, rfl, rfl⟩
 
 /-- a user definition affects only the text after it: the loop continues on the rest with the
-    extended vocabulary and emits nothing for the definition itself -/
+    extended vocabulary; for the definition itself it emits nothing but the line breaks written inside it -/
 theorem C17_user_def_from_point (f : Nat) (items : List Item) (cs : List Nat) :
-    convertLoop (f + 1) items (126 :: cs) = convertLoop f (defineWord items cs).1 (defineWord items cs).2 := by
+    convertLoop (f + 1) items (126 :: cs) = defineNl cs ++ convertLoop f (defineWord items cs).1 (defineWord items cs).2 := by
   simp [convertLoop, zen2han]
+
+theorem C17_user_def_leaves_line_breaks (cs : List Nat) : ∀ x ∈ defineNl cs, x = 10 := by
+  intro x hx
+  unfold defineNl at hx
+  split at hx
+  · simp at hx
+  · split at hx
+    · simpa using (List.mem_filter.mp hx).2
+    · rcases List.mem_append.mp hx with h | h <;> simpa using (List.mem_filter.mp h).2
+
+/-- a definition written on one line leaves nothing behind -/
+theorem C17_user_def_one_line (cs : List Nat) (h1 : 10 ∉ dwName cs) (h2 : 10 ∉ dwValue cs) : defineNl cs = [] := by
+  have e1 : (dwName cs).filter (· = 10) = [] := by
+    rw [List.filter_eq_nil_iff]; intro x hx; simp; intro h; subst h; exact h1 hx
+  have e2 : (dwValue cs).filter (· = 10) = [] := by
+    rw [List.filter_eq_nil_iff]; intro x hx; simp; intro h; subst h; exact h2 hx
+  unfold defineNl
+  split
+  · rfl
+  · split <;> simp [e1, e2]
 
 /-- the regenerated built-in vocabulary: every word is non-empty and starts with a non-ASCII character -/
 theorem C17_vocabulary_non_ascii :
